@@ -45,6 +45,25 @@ def admitted (m : Option Int) : Bool :=
   | none => false
   | some mi => decide (0 ≤ mi)
 
+/-! ## model: the per-message loops of the consensus end-blocker
+(`CheckAndProcessEstimatedMessages`, `CheckAndProcessAttestedMessages`): every message is handled on
+a branch of the store that is committed only when its handler succeeds; a failure is logged and the
+loop goes on with the next message (regenerated fact `blockLoops`: no statement inside the loops
+leaves the function with an error). `σ` is the store, `μ` a message. -/
+
+/-- one iteration: commit the handler's branch on success, keep the store on failure -/
+def loopStep {σ μ : Type} (h : σ → μ → Option σ) (s : σ) (m : μ) : σ := (h s m).getD s
+
+/-- the loop as it is since /repo 1718b7eb (log and continue) -/
+def runLoop {σ μ : Type} (h : σ → μ → Option σ) (s : σ) (ms : List μ) : σ := ms.foldl (loopStep h) s
+
+/-- the loop as it was (return at the first failing message) — kept to state what was wrong -/
+def runLoopOld {σ μ : Type} (h : σ → μ → Option σ) (s : σ) : List μ → σ
+  | [] => s
+  | m :: ms => match h s m with
+    | none => s
+    | some s' => runLoopOld h s' ms
+
 /-! ## Property theorems (C09) -/
 
 /-- **mulCeil_spec.** When a fee is produced it is exactly `⌈m·v⌉` and fits `uint64`; in every
@@ -105,6 +124,44 @@ theorem hostile_multiplicator_is_error_not_panic (v : Nat) (hv : 0 < v) :
     have h2 : (2 ^ 64 * scale + 1) * 1 ≤ (2 ^ 64 * scale + 1) * v := Nat.mul_le_mul_left _ hv
     omega
   simp [this]
+
+/-- **failing_message_is_skipped.** ("values that cannot be processed are … skipped with the rest of
+the block unaffected") A message whose handler fails — whatever the store looks like when its turn
+comes — influences the outcome of the loop exactly as if it were not in the queue: every other
+message is handled, in the same order, on the same stores. -/
+theorem failing_message_is_skipped {σ μ : Type} (h : σ → μ → Option σ) (bad : μ → Bool)
+    (hbad : ∀ s m, bad m = true → h s m = none) (s : σ) (ms : List μ) :
+    runLoop h s ms = runLoop h s (ms.filter fun m => !bad m) := by
+  induction ms generalizing s with
+  | nil => rfl
+  | cons m ms ih =>
+    by_cases hb : bad m = true
+    · have : loopStep h s m = s := by simp [loopStep, hbad s m hb]
+      simp only [runLoop, List.foldl_cons, List.filter_cons, hb, Bool.not_true, Bool.false_eq_true, if_false, this]
+      exact ih s
+    · have hb' : bad m = false := by simpa using hb
+      simp only [runLoop, List.foldl_cons, List.filter_cons, hb', Bool.not_false, if_true]
+      exact ih _
+
+/-- **every_message_gets_its_turn.** The handler of the k-th message runs on the store the earlier
+messages left, whatever their handlers returned (there is no early exit). -/
+theorem every_message_gets_its_turn {σ μ : Type} (h : σ → μ → Option σ) (s : σ) (pre : List μ) (m : μ) (post : List μ) :
+    runLoop h s (pre ++ m :: post) = runLoop h (loopStep h (runLoop h s pre) m) post := by
+  simp [runLoop, List.foldl_append]
+
+/-- **old_loop_starved_the_rest.** What the repaired defect was: with the early return, one failing
+message hides every later one (here: the second message is never handled). -/
+theorem old_loop_starved_the_rest :
+    runLoopOld (fun (s : List Nat) (m : Nat) => if m = 0 then none else some (m :: s)) [] [0, 7] = [] ∧
+    runLoop (fun (s : List Nat) (m : Nat) => if m = 0 then none else some (m :: s)) [] [0, 7] = [7] := by decide
+
+/-- **block_loops_have_no_error_exit.** (decide over the regenerated facts) both per-message loops of
+the consensus end-blocker exist, are nested loops, and contain no statement that leaves the function
+with an error from inside a loop — the shape `runLoop` models. -/
+theorem block_loops_have_no_error_exit :
+    (Paloma.Gen.Panics.blockLoops.map (·.fn) ==
+       ["x/consensus/keeper.Keeper.CheckAndProcessAttestedMessages", "x/consensus/keeper.Keeper.CheckAndProcessEstimatedMessages"] &&
+     Paloma.Gen.Panics.blockLoops.all (fun l => l.errorReturnsInLoops.isEmpty && decide (1 ≤ l.loops))) = true := by decide
 
 /-! ### the panic inventory regenerated from the typed source -/
 
@@ -174,6 +231,7 @@ theorem panic_inventory_covered :
 /-! ### non-vacuity -/
 example : mulCeil (some 1100000000000000000) 21000 = .ok 23100 := by decide
 example : mulCeil (some 1) 1 = .ok 1 := by decide
+example : runLoop (fun (s : List Nat) (m : Nat) => if m % 2 = 0 then none else some (m :: s)) [] [1, 2, 3, 4, 5] = [5, 3, 1] := by decide
 example : calcFees (some 1100000000000000000) (some 10000000000000000) (some 10000000000000000) 100 = some (110, 2, 2) := by decide
 
 end Paloma.NoPanic
